@@ -282,8 +282,13 @@ impl<T: Elem> World<T> {
                 self.last = ok;
             }
             "Drop" => {
-                let cv = self.vecs[v].take().unwrap();
+                let mut cv = self.vecs[v].take().unwrap();
                 EXPECT_DROP_CAP.store(cv.capacity(), SeqCst);
+                if C_RELEASE.load(SeqCst) {
+                    // C16: a foreign caller releases the vector through the published layout
+                    // (`v.drop_fn(v.data, v.len, v.capacity)`): same effect as the Rust destructor
+                    ledger::track(|| unsafe { cview::cv_vec_release(&mut cv as *mut CVec<T> as *mut std::ffi::c_void) });
+                }
                 ledger::track(|| drop(cv));
                 EXPECT_DROP_CAP.store(usize::MAX, SeqCst);
                 if DROP_CALLS.load(SeqCst) - d0 != 1 {
@@ -577,7 +582,13 @@ fn trace<T: Elem>(out: &str, seed: u64, events: usize, slots: usize) {
     println!("{}", json!({"summary":"trace","events":emitted,"elem":T::KIND}));
 }
 
+/// C16: release vectors from C through the published layout
+pub static C_RELEASE: std::sync::atomic::AtomicBool = std::sync::atomic::AtomicBool::new(false);
+
 pub fn main(args: &[String]) {
+    if args.iter().any(|a| a == "--c-release") {
+        C_RELEASE.store(true, SeqCst);
+    }
     if let Some(p) = vkit::arg_after(args, "--plugin") {
         unsafe {
             let lib = libloading::Library::new(&p).unwrap_or_else(|e| {
